@@ -865,6 +865,7 @@ fn mk_history(w: World, outcome: Outcome, in_after: Vec<usize>, out_after: Vec<u
         out: w.out,
         in_after_write: in_after,
         out_after_write: out_after,
+        live_after_write: vec![],
         usage_after_write: vec![],
         outcome,
         invocations: w.invocations,
